@@ -28,10 +28,17 @@ def interest(mask, fdk, mcode, case):
     return None
 
 
-def lockstep(rng, chart_factory, n_ops, drive):
-    """Run two interpreters (checked / ignoring) on the same inputs. Returns (status, detail)."""
-    a = sx.Scenario(chart_factory(), ignore_contract=False, n_rec=1)
-    b = sx.Scenario(chart_factory(), ignore_contract=True, n_rec=1)
+def lockstep(rng, chart_factory, n_ops, drive, plain=False):
+    """Run two interpreters (checked / ignoring) on the same inputs. Returns (status, detail).
+    plain: stock interpreter and evaluator, nothing recorded or probed in between."""
+    def mk(ignore):
+        holder = {}
+
+        def tick():
+            holder['s'].clock.time += 1
+        holder['s'] = sx.Scenario(chart_factory(), ignore_contract=ignore, n_rec=1, plain=plain, initial_context={'tick': tick})
+        return holder['s']
+    a, b = mk(False), mk(True)
     script = []
     for k in range(n_ops):
         op = drive(rng, a)
@@ -106,7 +113,7 @@ def drive_shipped(events):
 def post(tier, seed):
     def run(v, charts, cases, masks):
         rng = random.Random(seed * 31 + 9)
-        n = 150 if tier == 'quick' else 3000
+        n = 300 if tier == 'quick' else 4000
         stats = dict(ok=0, ended=0, premise_ends=0, violation=0)
         nv = 0
         import pickle
@@ -124,7 +131,7 @@ def post(tier, seed):
                 blob = pickle.dumps(proto)
                 fac = (lambda b: (lambda: pickle.loads(b)))(blob)
                 drv = drive_generated
-            status, detail = lockstep(rng, fac, rng.randint(10, 30), drv)
+            status, detail = lockstep(rng, fac, rng.randint(10, 30), drv, plain=(i % 2 == 0))
             stats[status.replace('-', '_')] += 1
             if status == 'violation':
                 nv += 1
